@@ -173,6 +173,18 @@ func (g *Gen) applyContract(ct *Contract, names []string, args []*Val, sig *type
 		t := g.specBool(env, c.E)
 		g.oblige("pre", t, pos, fmt.Sprintf("precondition of %s: %s", shortKey(ct.Key), c.Text), c.Props)
 	}
+	// precondition schemas: must hold for all parameter values
+	for _, fd := range ct.Facts {
+		sub := env.clone()
+		var decls []string
+		for _, bv := range fd.Vars {
+			name := g.fresh("q_" + bv.Name)
+			sub.vars[bv.Name] = scalar(sortOfSpecName(bv.Sort), name, nil)
+			decls = append(decls, fmt.Sprintf("(%s %s)", name, sortOfSpecName(bv.Sort)))
+		}
+		body := g.specBool(sub, fd.C.E)
+		g.oblige("pre", fmt.Sprintf("(forall (%s) %s)", strings.Join(decls, " "), body), pos, fmt.Sprintf("precondition schema %s of %s", fd.Name, shortKey(ct.Key)), fd.C.Props)
+	}
 	// footprint havoc
 	if ct.ModAny {
 		for _, s := range g.sorts {
